@@ -176,6 +176,33 @@ Proof. exact @EncodersProofs.emb_walk_widths. Qed.
 Print Assumptions emb_walk_widths.
 
 (* ========================================================================= *)
+(* (a') SHAPE.  Every stype encoder returns a tensor of shape [batch, columns, out_channels]: for
+   every batch size (the empty batch and a single row included), every encoder class, every NA
+   strategy, and every post-module that keeps the length of a cell's vector (post_forward raises
+   otherwise).  `channels_ok`: the parameter blocks carrying the channel axis are out_channels
+   wide, as init_modules allocates them.  With forward_order / forward_aligned below this gives
+   the shape [batch, total feature columns, channels] of the feature encoder's output. *)
+Theorem encoder_output_shape : forall (S : Scalar) (c : config S) (x : input S) o,
+    wf_config S c -> input_ok S c x -> channels_ok S c ->
+    (forall v, length (cf_post S c v) = length v) ->
+    forward S c x = Some o ->
+    shape_is (input_rows S x) (ncols S c) (cf_channels S c) o.
+Proof. exact (fun S c => forward_with_shape S (cf_post S c) c). Qed.
+Print Assumptions encoder_output_shape.
+
+(* hypotheses satisfiable; the empty batch of a two-column LinearEncoder has shape [0, 2, 3] *)
+Example encoder_output_shape_example :
+  let st := [qcs (XFin 1%Q) (XFin 2%Q) [] 0 0%Z [] [] [] 0; qcs (XFin 0%Q) (XFin 0%Q) [] 0 0%Z [] [] [] 0] in
+  let c := qconfig (ELinear QS (gmat 0 0 2 3) (gmat 1 0 2 3)) st 3 (Some na_MEAN) in
+  wf_config QS c /\ channels_ok QS c /\ input_ok QS c (InNum QS []) /\
+  (exists o, forward QS c (InNum QS []) = Some o /\ shape_isb 0 2 3 o = true) /\
+  (exists o, forward QS c (InNum QS [[XNaN; XFin 5%Q]]) = Some o /\ shape_isb 1 2 3 o = true).
+Proof.
+  repeat split; try (vm_compute; reflexivity); try (repeat constructor);
+    eexists; split; vm_compute; reflexivity.
+Qed.
+
+(* ========================================================================= *)
 (* (b) ORDER: the output column axis and the returned names are the same concatenation,
        over the stypes present, in the generated enum order *)
 Theorem forward_order : forall (A : Type) cnd fd enc xs ns,
